@@ -1,6 +1,7 @@
 """C08 — every scope exit releases exactly what the scope allocated: (fp, ap) monitors on the symbolic VM
 at loop heads / exits, call returns, stop-handler entry and function return (T-scope and the other
-families); the tight-stack differential of C04 covers 'never released early'."""
+families); 'never released early' is decided as VM vs reference-interpreter equivalence on the T-scope programs
+(an array released too soon is overwritten by the next allocation) and by the tight-stack differential of C04."""
 import os
 import sys
 import time
@@ -86,7 +87,7 @@ def main():
     widths = [2] if quick else [2, 3, 4]
     for W in widths:
         for i, c in enumerate(cases):
-            if 'alloc/vla' in c.name and ('vla-int' in c.name or 'vla-byte' in c.name or 'vla-bool' in c.name or 'vla-string' in c.name or 'two' in c.name or 'in-loop' in c.name or 'in-try' in c.name or 'after-lit' in c.name):
+            if 'alloc/vla' in c.name and ('vla-int' in c.name or 'vla-byte' in c.name or 'vla-bool' in c.name or 'vla-string' in c.name or 'two' in c.name or 'in-loop' in c.name or 'in-try' in c.name or 'after-lit' in c.name or 'vla-store' in c.name):
                 stack = 24      # unconstrained symbolic lengths: keep the number of feasible sizes small
             else:
                 stack = 200 if 'mergesort' in c.name else 96
@@ -98,6 +99,13 @@ def main():
     def on_result(r):
         tot[0] += r.get('monitor_checks', 0)
     run_tasks(rep, tasks, worker=scope_task, on_result=on_result)
+    # "arrays that are still in scope are never released early": an early release is invisible to the (fp, ap) equalities at
+    # scope boundaries, but the next allocation then overwrites the live array -- decided as VM vs reference interpreter
+    # equivalence on the scope templates (all inputs symbolic)
+    from hv.vmri import check_case
+    etasks = [case_to_task(c.with_(word=W, stack=96)) for W in widths for c in F.scope_templates()]
+    run_tasks(rep, etasks, worker=check_case, limit=600, sample_every=9)
+    rep.cov['early_release_equivalence_programs'] = len(etasks)
     rep.cov['monitor_equalities_checked'] = tot[0]
     rep.cov['states'] = rep.counts['instructions']
     rep.cov['transitions'] = rep.counts['instructions']
